@@ -281,8 +281,9 @@ def c06(ctx):
     schema.sep1(ctx)
     schema.table_cat(ctx)
     schema.builder_pass(ctx)
-    from .rules import flush
+    from .rules import flush, dml
     flush.dirty1(ctx)
+    dml.limit_w(ctx)
     return ctx.finish(explanation="pack/unpack constants of the column type word, disjointness, attribute/position symmetry of the _Validation row between writer and reader, "
                       "separator guard, category spelling tables. Equality of the reopened schema for all column lists is not decided")
 
